@@ -1280,6 +1280,16 @@ class ClientRequest(ClientRequestBase):
 
             self.headers[hdrs.TRANSFER_ENCODING] = "chunked"
 
+        if self.chunked and self.version < HttpVersion11:
+            # An HTTP/1.0 recipient does not know the chunked framing
+            # (RFC 9112, 6.1): refuse before anything is sent.
+            raise ValueError(
+                "Using chunked encoding (a body of unknown size, compress "
+                "or chunked=True) is forbidden for HTTP/{0.major}.{0.minor}".format(
+                    self.version
+                )
+            )
+
     def _update_body_from_data(self, body: Any) -> None:
         """Update request body from data."""
         if body is None:
